@@ -1,5 +1,8 @@
 """C03 - access control: without a policy grant nothing happens to, or leaks from, an object."""
+import json
+
 from kmip.core import enums
+from kmip.core import policy as core_policy
 
 from kv import model, rig
 from kv.gen import requests as G
@@ -105,6 +108,32 @@ def rand_policies(rng):
     shapes['public'] = 'builtin'
     shapes['open'] = 'builtin'
     return pols, shapes
+
+
+def section_json(sec):
+    return {t.name: {o.name: pol.name for o, pol in ops.items()} for t, ops in sec.items()}
+
+
+def through_file(ctx, d, gen, rng):
+    """The generated policies as the server is given them in practice: written to one JSON policy file (several policies
+    per file, in a random order) and read back by the repository's loader. The model keeps the definitions as written."""
+    names = list(gen)
+    rng.shuffle(names)
+    blob = {}
+    for n in names:
+        pol = {}
+        if 'preset' in gen[n]:
+            pol['preset'] = section_json(gen[n]['preset'])
+        if 'groups' in gen[n]:
+            pol['groups'] = {g: section_json(sec) for g, sec in gen[n]['groups'].items()}
+        blob[n] = pol
+    path = '%s/policies-%04x.json' % (d, rng.getrandbits(16))
+    with open(path, 'w') as f:
+        json.dump(blob, f)
+    parsed = core_policy.read_policy_from_file(path)
+    ctx.count('policy_files_loaded')
+    ctx.count('policies_loaded_from_files', len(parsed))
+    return parsed
 
 
 def ident_class(ident, owner):
@@ -311,8 +340,16 @@ def run_case(ctx, case):
     rng = ctx.rng()
     clock = rig.install_clock(rig.VClock(step=1))
     pols, shapes = rand_policies(rng)
+    by_file = rng.random() < 0.6
     with rig.scratch_dir() as d:
-        srv = rig.Server(d + '/db.sqlite', policies=pols)
+        in_force = dict(pols)
+        if by_file:
+            gen0 = {n: pols[n] for n, _ in GENERATED}
+            loaded = through_file(ctx, d, gen0, rng)
+            for n in gen0:
+                in_force.pop(n)
+            in_force.update(loaded)
+        srv = rig.Server(d + '/db.sqlite', policies=in_force)
         try:
             objs = []
             creators = {}
@@ -368,10 +405,21 @@ def run_case(ctx, case):
                     # the policies in force change while the server runs (what the policy directory monitor does when a
                     # file is edited: the entry of the shared policy store is replaced under the same name); from here
                     # on every decision is owed to the new definitions
+                    fresh = {}
                     for name, shape in GENERATED:
                         if rng.random() < 0.75:
-                            srv.policies[name] = rand_policy(rng, shape)
+                            fresh[name] = rand_policy(rng, shape)
                             ctx.count('policies_replaced_at_run_time')
+                    if by_file and fresh:
+                        loaded = through_file(ctx, d, fresh, rng)
+                        for name in fresh:
+                            srv.policies.pop(name, None)
+                        srv.policies.update(loaded)
+                        pols.update(fresh)
+                    else:
+                        srv.policies.update(fresh)
+                        if srv.policies is not pols:
+                            pols.update(fresh)
                 # a little history by several clients
                 for _ in range(24):
                     v = rng.choice(rig.VERSIONS)
